@@ -119,6 +119,17 @@ func genEvSession(ref core.CaseRef, r *rand.Rand) *evCase {
 	}
 	c.Feed = pick(r, []string{"burst", "paced", "step"})
 	c.Tail = max + c.MooMs + 10*c.SizeMs
+	if r.Intn(5) == 0 {
+		// two grouping columns whose values contain the characters a composite key might be joined or escaped
+		// with: distinct tuples that read alike once written one after the other
+		c.K2 = true
+		pairs := map[string]evK2{"a": {"a|b", "c"}, "b": {"a", "b|c"}, "c": {"a\\", "|b|c"}, "d": {"a\\|b", "c"}, "e": {"", "a|b|c"}, "f": {"x", "y"}}
+		for i := range c.Rows {
+			if s, ok := c.Rows[i].K.(string); ok {
+				c.Rows[i].K = pairs[s]
+			}
+		}
+	}
 	c.buildSQL()
 	return c
 }
@@ -139,6 +150,18 @@ func runC10(ctx *core.Ctx) {
 }
 
 // c10Sessions canonicalises the outcome of a run: per key, the sorted list of sorted witness lists.
+// c10FixKeys rebuilds the two-column key of every decoded result (evDecode only knows column k).
+func c10FixKeys(c *evCase, wins []evWin) {
+	if !c.K2 {
+		return
+	}
+	for i := range wins {
+		if sk, ok := wins[i].Row["k"].(string); !ok || sk != "__sentinel__" {
+			wins[i].K = evK2{wins[i].Row["k"], wins[i].Row["k2"]}
+		}
+	}
+}
+
 func c10Sessions(wins []evWin) string {
 	var parts []string
 	for _, w := range wins {
@@ -199,6 +222,10 @@ func execC10(ctx *core.Ctx, c *evCase) {
 	if err != nil {
 		viol("session.undecodable_result", err.Error())
 		return
+	}
+	c10FixKeys(c, wins)
+	if c.K2 {
+		ctx.Count("cases_two_key_columns", 1)
 	}
 	ctx.Count("deliveries_checked", int64(len(res.Dels)))
 	ctx.Count("session_results_checked", int64(len(wins)))
@@ -292,6 +319,7 @@ func execC10(ctx *core.Ctx, c *evCase) {
 			if err != nil {
 				continue
 			}
+			c10FixKeys(c, w2)
 			ctx.Count("speed_variants_compared", 1)
 			if got := c10Sessions(w2); got != base {
 				viol("session.feed_speed_dependent", fmt.Sprintf("in-order input gives different sessions when fed %q vs %q:\n  %s\n  %s", c.Feed, feed, base, got))
